@@ -13,6 +13,13 @@
   functions, extended by "every field item recorded so far is a dot followed by a byte", with the fact each state relies on when it is entered ("the left delimiter starts here",
   "one space has been read", "the rune at the cursor is alphanumeric", ...) established by the state
   function that selects it.  Writing that invariant down for lexRightDelim is what turned up D56.
+
+  Termination: the invariant carries a floor under `start`, so each state function's lemma also says
+  how far it moved `start` (`delta`), and the potential `4·(len - start) + rank(state)` drops at every
+  step (`lexer_terminates`).  The entry facts needed for that are the ones the Go code relies on
+  silently: lexSpace is entered only where `atRightDelim` has just said no (otherwise its backup would
+  emit an empty space item for ever), lexNumber only on a sign, dot or digit (otherwise scanNumber
+  would consume nothing), the quote states only after the opening quote.
 -/
 import JetVerif.Lemmas.LexNoCrash
 import JetVerif.Props.C02P
@@ -36,8 +43,36 @@ theorem lexer_items_are_well_formed (l r lc rc input : Bytes) :
 
 /-- one step of the state machine from any state satisfying the invariant and the entry fact of the
     state function: no crash, invariant and next entry fact re-established -/
-theorem every_state_function_is_safe (inp : Bytes) (d : Delims) (st : StateId) (s : St)
-    (h : B inp d s) (he : Entry st s) : Ok (step st s) (Goes inp d) := step_ok st s h he
+theorem every_state_function_is_safe (inp : Bytes) (d : Delims) (lo : Int) (st : StateId) (s : St)
+    (h : B inp d lo s) (he : Entry st s) : Ok (step st s) (Steps inp d st s) := step_ok st s h he
+
+/-- every step of the state machine lowers the potential `4·(bytes not yet emitted or ignored) +
+    rank(state)`: a state function either moves `start` forward, or hands over - consuming nothing -
+    to a state of lower rank (`text` to a delimiter or comment state, `insideAction` to a scanning
+    state or the right delimiter, `space` to the right delimiter) -/
+theorem every_step_lowers_the_potential (inp : Bytes) (d : Delims) (lo : Int) (st st' : StateId) (s s' : St)
+    (h : B inp d lo s) (he : Entry st s) (hs : step st s = .ok (some st') s') :
+    potential st' s' < potential st s := by
+  have := step_ok st s h he
+  rw [hs] at this
+  exact potential_step st st' s s' h this
+
+/-- **The lexer always ends**, and ends normally: for every source and every delimiter
+    configuration the state machine reaches its final state (`eof` or an error item emitted) within
+    `4·len + 16` state transitions - there is no input on which the lexer goroutine spins, and the
+    fuel the model runs on never decides an outcome. -/
+theorem lexer_terminates (l r lc rc input : Bytes) :
+    ∃ evs, lexRun (mkDelims l r lc rc) input = .done evs := by
+  have hb := initial_B (mkDelims l r lc rc) (mkDelims_wf l r lc rc) input
+  have hc := (runLoop_ok (4 * input.length + 16) StateId.text _ hb trivial).1
+  have hf := runLoop_terminates (4 * input.length + 16) StateId.text _ hb trivial (by
+    simp only [potential, rank]
+    omega)
+  unfold lexRun
+  cases hr : runLoop (4 * input.length + 16) StateId.text { input := input, d := mkDelims l r lc rc } with
+  | done evs => exact ⟨evs, rfl⟩
+  | crash m e => exact absurd hr (hc m e)
+  | outOfFuel e => exact absurd hr (hf e)
 
 /-- what the lexer produces is what the parser theorems assume (`WfItems`) -/
 theorem lexer_output_satisfies_parser_assumptions (l r lc rc input : Bytes) (evs : List Event)
